@@ -225,13 +225,38 @@ fn check_bad_line(line: &str, kind: &str, rec: &mut Rec) {
     }
 }
 
+/// a description without its line terminator (LF or CRLF), if it still carries one
+fn strip_eol(d: &str) -> &str {
+    d.strip_suffix("\r\n").or_else(|| d.strip_suffix('\n')).unwrap_or(d)
+}
+
+/// the line parser promises no line number for a line that is not UTF-8 (expected `Err(None)`); the right
+/// number is as good as none
+fn forgive_line_numbers(got: &mut [Result<Parsed, Option<u64>>], expect: &[Result<Parsed, Option<u64>>]) {
+    for (i, e) in expect.iter().enumerate() {
+        if *e == Err(None) && got.get(i) == Some(&Err(Some(i as u64 + 2))) {
+            got[i] = Err(None);
+        }
+    }
+}
+
 /// items of a file through the public line parser: Ok(parsed) or Err(line number)
 #[allow(clippy::type_complexity)]
 fn parse_file(path: &std::path::Path) -> Out<Result<Vec<Result<Parsed, Option<u64>>>, String>> {
     guard_v(|| {
         let parser: CsvLineParser<std::fs::File, PrecisDerivedProperty> =
             CsvLineParser::from_path(path).map_err(|e| e.mesg().to_string())?;
-        Ok(parser.map(|it| it.map(|p| cv(&p)).map_err(|e| e.line())).collect())
+        Ok(parser
+            .map(|it| {
+                it.map(|p| {
+                    // "the same description text (up to the line terminator)": the terminator may or may not be kept
+                    let mut m = cv(&p);
+                    m.desc = strip_eol(&m.desc).to_string();
+                    m
+                })
+                .map_err(|e| e.line())
+            })
+            .collect())
     })
 }
 
@@ -260,8 +285,12 @@ fn check_file(env: &Env, rng: &mut Rng, id: usize, rec: &mut Rec) {
         } else {
             text.push_str(&r.line());
             text.push_str(term);
+            // a description that itself ends in CR (or LF) would be ambiguous with the terminator: not generated
             let mut m = r.model.clone();
-            m.desc.push_str(term);
+            m.desc = strip_eol(&m.desc).to_string();
+            if m.desc != r.model.desc || m.desc.ends_with('\r') {
+                rec.note("HARNESS-ERROR: generated description ends in a line terminator");
+            }
             expect.push(Ok(m));
         }
     }
@@ -294,7 +323,10 @@ fn check_file(env: &Env, rng: &mut Rng, id: usize, rec: &mut Rec) {
         rec.note("HARNESS-ERROR: cannot write scratch CSV file");
         return;
     }
-    let got = parse_file(&path);
+    let mut got = parse_file(&path);
+    if let Out::Ok(Ok(items)) = &mut got {
+        forgive_line_numbers(items, &expect);
+    }
     let _ = std::fs::remove_file(&path);
     rec.eval();
     let class = format!("file:{}:{}", if crlf { "CRLF" } else { "LF" }, if final_newline { "final-newline" } else { "no-final-newline" });
@@ -422,7 +454,6 @@ pub fn run(env: &Env) -> Rec {
             let line = format!("{},{},{}", r.cp_field, r.prop_field, m.desc);
             text.push_str(&line);
             text.push('\n');
-            m.desc.push('\n');
             expect.push(Ok(m));
         }
         let path = env.out_dir.join(format!("c17-big-{}.csv", std::process::id()));
@@ -468,7 +499,7 @@ pub fn run(env: &Env) -> Rec {
                             && p.is_range == want.is_range
                             && p.p1 == want.p1
                             && p.p2 == want.p2
-                            && p.desc.trim_end_matches(['\r', '\n']) == want.desc
+                            && p.desc == want.desc
                     }
                     _ => false,
                 };
@@ -540,10 +571,7 @@ pub fn replay(env: &Env, _op: &str, case: &str) -> Rec {
         for (i, l) in lines.iter().enumerate() {
             let body = l.trim_end_matches(['\r', '\n']);
             match own_parse(body) {
-                Some(mut m) => {
-                    m.desc.push_str(&l[body.len()..]);
-                    expect.push(Ok(m))
-                }
+                Some(m) => expect.push(Ok(m)),
                 None => expect.push(Err(Some(i as u64 + 2))),
             }
         }
